@@ -88,7 +88,51 @@ def check(goal, hyps=(), timeout_ms=None, want_model=True, use_cvc5=True):
             return 'proved', 'cvc5', time.time() - t0, None
         if c == 'sat':
             return 'refuted', 'cvc5', time.time() - t0, {'note': 'cvc5 sat; model not extracted'}
+    # both solvers gave up on  hyps /\ not goal  (typically two large different nonlinear terms).  A model of the hypotheses
+    # alone is much easier to find; if the goal evaluates to false in it, that model is a genuine counterexample.
+    try:
+        w = _refute_in_a_model_of_the_hypotheses(goal, hyps)
+    except z3.Z3Exception:
+        w = None
+    if w is not None:
+        return 'refuted', 'z3:model-of-hypotheses', time.time() - t0, (w if want_model else None)
     return 'unknown', 'z3+cvc5', time.time() - t0, None
+
+
+def _refute_in_a_model_of_the_hypotheses(goal, hyps, tries=3, timeout_ms=8000):
+    for k in range(tries):
+        s = z3.Solver()
+        s.set('timeout', timeout_ms)
+        s.set('random_seed', 11 + 7 * k)
+        for h in hyps:
+            s.add(h)
+        if k:
+            # steer away from the degenerate all-zero model: ask for a model in which some free symbol is not 0 / 1
+            fv = _free_consts(goal)
+            if fv:
+                s.add(z3.Or(*[z3.And(v != 0, v != 1, v != -1) for v in fv[:6]]))
+        if s.check() != z3.sat:
+            continue
+        m = s.model()
+        v = m.eval(goal, model_completion=True)
+        if z3.is_false(v):
+            return model_dict(m)
+    return None
+
+
+def _free_consts(e):
+    out, seen = [], set()
+
+    def go(t):
+        if t.get_id() in seen:
+            return
+        seen.add(t.get_id())
+        if z3.is_const(t) and t.decl().kind() == z3.Z3_OP_UNINTERPRETED and t.sort() == z3.RealSort():
+            out.append(t)
+        for c in t.children():
+            go(c)
+    go(e)
+    return out
 
 
 def record(name, status, backend='', secs=0.0, model=None, kind='vc', **extra):
@@ -97,7 +141,18 @@ def record(name, status, backend='', secs=0.0, model=None, kind='vc', **extra):
         ob['model'] = model
     ob.update(extra)
     OBS.append(ob)
+    if SPILL[0] is not None:
+        # written through as it is recorded: a group killed at its wall-clock limit keeps what it had decided
+        try:
+            import json
+            SPILL[0].write(json.dumps(ob, default=str) + '\n')
+            SPILL[0].flush()
+        except Exception:
+            pass
     return status == 'proved'
+
+
+SPILL = [None]
 
 
 def prove(name, goal, hyps=(), timeout_ms=None, kind='vc', **extra):
@@ -369,7 +424,7 @@ def default_interp():
     return {'*': generic, 'nom': lambda t: 1 + Fraction(t) * Fraction(t) / 7, 'log_r': lambda t: Fraction(t) / 3 + 1}
 
 
-def refute_equal(name, lhs_terms, rhs_terms, varnames, seeds=(1, 2, 3), **extra):
+def refute_equal(name, lhs_terms, rhs_terms, varnames, seeds=(1, 2, 3), hyps=None, **extra):
     """try to refute And(lhs_i == rhs_i) by exact evaluation at a few rational points; returns True if refuted
     (an obligation with status 'refuted' and the witness is recorded)"""
     import random
@@ -378,7 +433,18 @@ def refute_equal(name, lhs_terms, rhs_terms, varnames, seeds=(1, 2, 3), **extra)
     for sd in seeds:
         rnd = random.Random(sd)
         assign = {v: Fraction(rnd.randint(-40, 40), rnd.randint(7, 23)) for v in varnames}
+        for v in varnames:
+            # the harnesses name step sizes h* (positive by the generator contract) and reciprocal step ratios q (in (0, 1))
+            if v[:1] == 'h' and v[1:2] in ('', '_') + tuple('0123456789'):
+                assign[v] = abs(assign[v]) / 8 + Fraction(1, 16)
+            elif v == 'q':
+                assign[v] = Fraction(rnd.randint(2, 7), 8)
         try:
+            if hyps is not None:
+                # the equality is claimed under hypotheses: only a point that satisfies every one of them is a witness
+                # (hypotheses over symbols that are not assigned make the point unusable, not the claim false)
+                if not all(evaluate(h, assign, interp) is True for h in hyps):
+                    continue
             for a, b in zip(lhs_terms, rhs_terms):
                 va, vb = evaluate(a, assign, interp), evaluate(b, assign, interp)
                 if va != vb:
